@@ -62,15 +62,16 @@ theorem single_transfer_effect (H : Hooks) (compress : Bool) (items : List Item)
     (hshape : ∀ env p instrs short, expandPseudo H env line name args p = .ok (instrs, short) → instrs = [i0])
     (hbj : IsBJ i0) (himm : i0.imm? = some (.offset ref))
     (hn : ref ∈ labelNames items) (hc : r.constants.get ref = none) :
-    ∃ (off t : Int), r.labels.get ref = some t ∧
+    ∃ (off t : Int), SourceAt H compress items r A B line off ∧ r.labels.get ref = some t ∧
       (∀ f x, (i0.mapRegs (aliasReg r.constants)).fld f = some x → (lookupRegister x).isSome = true) ∧
       ∀ i32, ((∀ f x, (i0.mapRegs (aliasReg r.constants)).fld f = some x → (lookupRegister x).isSome = true) →
           denote32I ((i0.mapRegs (aliasReg r.constants)).setImm (.value (t - off))) = some i32) →
         ∃ n : Nat, (n = 4 ∨ n = 2) ∧ ExecAt r off n (exec i32 n) := by
-  obtain ⟨G7, P, blk, S, q, Lq, instrs, short, eG, hexp, hz, hplaced, hagree, hnames, horacle⟩ :=
+  obtain ⟨G7, P, blk, S, q, Lq, instrs, short, eG, hexp, hz, hplaced, hagree, hnames, horacle, hlayout, xA, xB, hnnG⟩ :=
     pseudo_trace H compress items r hnn h e
   have hi0 := hshape _ _ _ _ hexp
   subst hi0
+  have hat := sourceAt_of_trace eG hz (by simp) hlayout xA xB hnnG
   -- the label has a value
   have ht : ∃ t, r.labels.get ref = some t := by
     have hs := (labelPos_isSome_iff G7 0 ref).mpr (by rw [hnames]; exact hn)
@@ -103,7 +104,7 @@ theorem single_transfer_effect (H : Hooks) (compress : Bool) (items : List Item)
       exact horacle hcm (hsrc hcm) P line cf S (by rw [eG]; rfl) hcc
     have key := fun i32 hden => final_exec_offset (i32 := i32) (names := labelNames items) hlit hq1 hp1
       (by rw [wellKinded_mapRegs]; exact hwk0) hbj' (by rw [mapRegs_imm]; exact himm) hn hc ht hor hden
-    refine ⟨sizeSum P, t, ht, ?_, ?_⟩
+    refine ⟨sizeSum P, t, hat, ht, ?_, ?_⟩
     · -- validity does not depend on which instruction it denotes: use the acceptance directly
       obtain ⟨k, hk, hs, hnc⟩ := wellKinded_row (by rw [wellKinded_mapRegs]; exact hwk0 : (i0.mapRegs (aliasReg r.constants)).wellKinded = true)
       rcases hq1 with rfl | ⟨hcm, cf, c, preds, p, L, rfl, dd⟩
@@ -153,6 +154,7 @@ theorem assemble_pseudo_branch_effect (H : Hooks) (compress : Bool) (items : Lis
     (hb : branchRegs k args = some (real, r1, r2, ref))
     (hn : ref ∈ labelNames items) (hc : r.constants.get ref = none) :
     ∃ (off t : Int) (a b : Nat) (o : BrOp) (n : Nat),
+      SourceAt H compress items r A B line off ∧
       r.labels.get ref = some t ∧ classOf real = some (.br o) ∧
       lookupRegister (aliasReg r.constants r1) = some a ∧ lookupRegister (aliasReg r.constants r2) = some b ∧
       (n = 4 ∨ n = 2) ∧ ExecAt r off n (exec (.branch o a b (t - off)) n) := by
@@ -178,13 +180,13 @@ theorem assemble_pseudo_branch_effect (H : Hooks) (compress : Bool) (items : Lis
         subst this
         simp only [hp, pure, Except.pure, Except.ok.injEq, Prod.mk.injEq] at hx
         exact hx.1.symm)
-  obtain ⟨off, t, ht, hval, hkey⟩ := single_transfer_effect H compress items r hnn hlit hsrc h e hshape
+  obtain ⟨off, t, hat, ht, hval, hkey⟩ := single_transfer_effect H compress items r hnn hlit hsrc h e hshape
     (Or.inl ⟨_, _, _, _, rfl⟩) rfl hn hc
   simp only [Instr.mapRegs] at hval hkey
   have ha := some_of_isSome (hval .rs1 _ rfl)
   have hb' := some_of_isSome (hval .rs2 _ rfl)
   obtain ⟨n, hn4, hex⟩ := hkey (.branch o _ _ (t - off)) (fun _ => bridge_b (t - off) hrow hcls ha hb')
-  exact ⟨off, t, _, _, o, n, ht, hcls, ha, hb', hn4, hex⟩
+  exact ⟨off, t, _, _, o, n, hat, ht, hcls, ha, hb', hn4, hex⟩
 
 /-! ### j, jal -/
 
@@ -197,7 +199,7 @@ theorem assemble_jump_effect (H : Hooks) (compress : Bool) (items : List Item) (
     (e : items = A ++ .pseudo line name [ref] :: B)
     (hk : pseudoKind name = some .j ∨ pseudoKind name = some .jal)
     (hn : ref ∈ labelNames items) (hc : r.constants.get ref = none) :
-    ∃ (off t : Int) (n : Nat), r.labels.get ref = some t ∧ (n = 4 ∨ n = 2) ∧
+    ∃ (off t : Int) (n : Nat), SourceAt H compress items r A B line off ∧ r.labels.get ref = some t ∧ (n = 4 ∨ n = 2) ∧
       ExecAt r off n (exec (.jal (if pseudoKind name = some .jal then 1 else 0) (t - off)) n) := by
   obtain ⟨items1, _, _, _, _, _, _, _, _, _, _, _, h1, _⟩ := assemble_stages_all H compress items r h
   have hx0 := alias_x h1 (s := "x0") (Or.inl rfl)
@@ -217,18 +219,18 @@ theorem assemble_jump_effect (H : Hooks) (compress : Bool) (items : List Item) (
         simp only [hp, pure, Except.pure, Except.ok.injEq, Prod.mk.injEq] at hx
         exact hx.1.symm)
   rcases hk with hkk | hkk
-  · obtain ⟨off, t, ht, hval, hkey⟩ := single_transfer_effect H compress items r hnn hlit hsrc h e
+  · obtain ⟨off, t, hat, ht, hval, hkey⟩ := single_transfer_effect H compress items r hnn hlit hsrc h e
       (hshape "x0" (Or.inl ⟨hkk, rfl⟩)) (Or.inr ⟨_, _, _, rfl⟩) rfl hn hc
     simp only [Instr.mapRegs, hx0] at hval hkey
     obtain ⟨n, hn4, hex⟩ := hkey (.jal 0 (t - off)) (fun _ => bridge_jal (t - off) reg_x0)
-    refine ⟨off, t, n, ht, hn4, ?_⟩
+    refine ⟨off, t, n, hat, ht, hn4, ?_⟩
     have : pseudoKind name ≠ some .jal := by rw [hkk]; decide
     rw [if_neg this]; exact hex
-  · obtain ⟨off, t, ht, hval, hkey⟩ := single_transfer_effect H compress items r hnn hlit hsrc h e
+  · obtain ⟨off, t, hat, ht, hval, hkey⟩ := single_transfer_effect H compress items r hnn hlit hsrc h e
       (hshape "x1" (Or.inr ⟨hkk, rfl⟩)) (Or.inr ⟨_, _, _, rfl⟩) rfl hn hc
     simp only [Instr.mapRegs, hx1] at hval hkey
     obtain ⟨n, hn4, hex⟩ := hkey (.jal 1 (t - off)) (fun _ => bridge_jal (t - off) reg_x1)
-    refine ⟨off, t, n, ht, hn4, ?_⟩
+    refine ⟨off, t, n, hat, ht, hn4, ?_⟩
     rw [if_pos hkk]; exact hex
 
 /-! ### call, tail -/
@@ -250,10 +252,11 @@ theorem call_tail_effect (H : Hooks) (compress : Bool) (items : List Item) (r : 
     (hk : pseudoKind name = some k)
     (hkk : (k = .call ∧ rds = "x1" ∧ rAs = "x1" ∧ rd = 1 ∧ rA = 1) ∨ (k = .tail ∧ rds = "x0" ∧ rAs = "x6" ∧ rd = 0 ∧ rA = 6))
     (hn : ref ∈ labelNames items) (hc : r.constants.get ref = none) :
-    ∃ (off t : Int), r.labels.get ref = some t ∧ CallEffect r off t rd rA := by
+    ∃ (off t : Int), SourceAt H compress items r A B line off ∧ r.labels.get ref = some t ∧ CallEffect r off t rd rA := by
   obtain ⟨items1, _, _, _, _, _, _, _, _, _, _, _, h1, _⟩ := assemble_stages_all H compress items r h
-  obtain ⟨G7, P, blk, S, q, Lq, instrs, short, eG, hexp, hz, hplaced, hagree, hnames, horacle⟩ :=
+  obtain ⟨G7, P, blk, S, q, Lq, instrs, short, eG, hexp, hz, hplaced, hagree, hnames, horacle, hlayout, xA, xB, hnnG⟩ :=
     pseudo_trace H compress items r hnn h e
+  have hat := fun hne => sourceAt_of_trace eG hz hne hlayout xA xB hnnG
   have ht : ∃ t, r.labels.get ref = some t := by
     have hs := (labelPos_isSome_iff G7 0 ref).mpr (by rw [hnames]; exact hn)
     cases hu : labelPos G7 0 ref with
@@ -288,7 +291,9 @@ theorem call_tail_effect (H : Hooks) (compress : Bool) (items : List Item) (r : 
       split at hexp <;> simp only [Except.ok.injEq, Prod.mk.injEq] at hexp
       · exact Or.inl hexp.1.symm
       · exact Or.inr hexp.1.symm
-  refine ⟨sizeSum P, t, ht, ?_⟩
+  have hne : instrs.map (fun i => i.mapRegs (aliasReg r.constants)) ≠ [] := by
+    rcases hinstrs with rfl | rfl <;> simp
+  refine ⟨sizeSum P, t, hat hne, ht, ?_⟩
   rcases hinstrs with rfl | rfl
   · -- near
     simp only [List.map_cons, List.map_nil, Instr.mapRegs, hrds.1] at hz
@@ -350,7 +355,7 @@ theorem assemble_call_effect (H : Hooks) (compress : Bool) (items : List Item) (
     {A B : List Item} {line : Line} {ref : String}
     (e : items = A ++ .pseudo line "call" [ref] :: B)
     (hn : ref ∈ labelNames items) (hc : r.constants.get ref = none) :
-    ∃ (off t : Int), r.labels.get ref = some t ∧ CallEffect r off t 1 1 :=
+    ∃ (off t : Int), SourceAt H compress items r A B line off ∧ r.labels.get ref = some t ∧ CallEffect r off t 1 1 :=
   call_tail_effect H compress items r hnn hlit hoff hsrc h e (k := .call) (rds := "x1") (rAs := "x1") (by decide)
     (Or.inl ⟨rfl, rfl, rfl, rfl, rfl⟩) hn hc
 
@@ -363,7 +368,7 @@ theorem assemble_tail_effect (H : Hooks) (compress : Bool) (items : List Item) (
     {A B : List Item} {line : Line} {ref : String}
     (e : items = A ++ .pseudo line "tail" [ref] :: B)
     (hn : ref ∈ labelNames items) (hc : r.constants.get ref = none) :
-    ∃ (off t : Int), r.labels.get ref = some t ∧ CallEffect r off t 0 6 :=
+    ∃ (off t : Int), SourceAt H compress items r A B line off ∧ r.labels.get ref = some t ∧ CallEffect r off t 0 6 :=
   call_tail_effect H compress items r hnn hlit hoff hsrc h e (k := .tail) (rds := "x0") (rAs := "x6") (by decide)
     (Or.inr ⟨rfl, rfl, rfl, rfl, rfl⟩) hn hc
 
@@ -387,16 +392,18 @@ open BB.Props.C12 (Hp hp_litOK hp_offset progP lp) in
 example :
     let r : AsmResult := { bytes := [25, 197, 49, 32, 1, 21, 147, 197, 245, 255, 227, 27, 181, 254, 130, 128],
                            labels := [("B", 0), ("F", 14)], constants := [] }
-    (∃ (off t : Int) (a b : Nat) (o : BrOp) (n : Nat), r.labels.get "F" = some t ∧ classOf "beq" = some (.br o) ∧
+    (∃ (off t : Int) (a b : Nat) (o : BrOp) (n : Nat), SourceAt Hp true progP r (progP.take 2) (progP.drop 3) (lp 3) off ∧
+      r.labels.get "F" = some t ∧ classOf "beq" = some (.br o) ∧
       lookupRegister (aliasReg r.constants (.str "a0")) = some a ∧ lookupRegister (aliasReg r.constants (.str "x0")) = some b ∧
       (n = 4 ∨ n = 2) ∧ ExecAt r off n (exec (.branch o a b (t - off)) n)) ∧
-    (∃ (off t : Int), r.labels.get "F" = some t ∧ CallEffect r off t 1 1) := by
+    (∃ (off t : Int), SourceAt Hp true progP r (progP.take 3) (progP.drop 4) (lp 4) off ∧ r.labels.get "F" = some t ∧
+      CallEffect r off t 1 1) := by
   intro r
   have h : assembleItems Hp true progP [] [] = .ok r := by decide
   have hnn : NonNeg progP := by unfold NonNeg; decide
   exact ⟨assemble_pseudo_branch_effect Hp true progP r hnn hp_litOK hp_offset (fun _ => BB.Props.C04.progP_nocomp) h
-      (A := [_, _]) (B := [_, _, _, _, _, _]) rfl (k := .brz "beq") (by decide) (real := "beq") rfl (by decide) rfl,
+      (A := progP.take 2) (B := progP.drop 3) rfl (k := .brz "beq") (by decide) (real := "beq") rfl (by decide) rfl,
     assemble_call_effect Hp true progP r hnn hp_litOK hp_offset (fun _ => BB.Props.C04.progP_nocomp) h
-      (A := [_, _, _]) (B := [_, _, _, _, _]) rfl (by decide) rfl⟩
+      (A := progP.take 3) (B := progP.drop 4) rfl (by decide) rfl⟩
 
 end BB.Props.C05
